@@ -64,3 +64,22 @@ theorem rowCheck_named : ∀ row ∈ [Gen.curve_NIST192p, Gen.curve_NIST224p, Ge
   decide +kernel
 
 end Ecdsa.OnCurve
+
+namespace Ecdsa.OnCurve
+open Curve Jac GroupInterface WeierstrassCurve
+
+/-- any cofactor: `Matches` from p odd prime, n odd prime, the generator on the curve (computed) and **n • G = 0**
+(the SEC 2 fact "G has order n"; for h = 1 it follows from #E = n, see `matchesRec_of_card`) -/
+theorem matches_of_order {p : ℕ} [hp : Fact p.Prime] {a b : ℤ} (hp2 : p ≠ 2) (c : Affine.Crv) (cp : c.p = p) (ca : c.a = a)
+    (cb : c.b = b) (cj : c.jac = true) (n : ℕ) (cn : c.n = n) (hnp : n.Prime) (hodd : n % 2 = 1)
+    (hgx : 0 ≤ c.gx ∧ c.gx < p) (hgy : 0 ≤ c.gy ∧ c.gy < p)
+    (he : ((c.gy : ℤ) : ZMod p) ^ 2 = (c.gx : ZMod p) ^ 3 + a * c.gx + b) (hy0 : ((c.gy : ℤ) : ZMod p) ≠ 0)
+    (hnG : (n : ℤ) • (Affine.Point.some _ _ (nonsingular_of hp2 he hy0) : Grp (a : ZMod p) (b : ZMod p)) = 0) :
+    ∃ C : Ctx p a b, Matches c C ∧ C.n = n := by
+  let C : Ctx p a b := ⟨_, n, hnG, by omega, by have := hnp.pos; omega⟩
+  have hcv : OnCurve p a b (crvOf c) := ⟨cp, ca, cb⟩
+  have h0 := pjRep_of_affine hp2 (crvOf c) hcv c.gx c.gy hgx hgy he hy0 (some c.n) true
+  obtain ⟨h1, h2, h3⟩ := h0
+  exact ⟨C, ⟨hp2, cp, ca, cb, cn, by rw [cn]; simpa using hnp, cj, ⟨h1, h2, ⟨C.G_mem, h3.2⟩⟩⟩, rfl⟩
+
+end Ecdsa.OnCurve
